@@ -70,7 +70,9 @@ func instances(tier string, seed uint64) []inst {
 		{"float", tFloat(), []rv{vFloat(0), vFloat(1.5), vFloat(-2.5), vFloat(3)}},
 		{"bool", tBool(), []rv{vBool(true), vBool(false)}},
 		{"str", tStr(), []rv{vStr(""), vStr("a"), vStr("abc"), vStr("a,b,,c"), vStr("Hello World"), vStr("12"), vStr("-7"), vStr("1.5"),
-			vStr("true"), vStr("[1, 2]"), vStr("{\"a\": 1}"), vStr("null"), vStr("äb"), vStr("日本語")}},
+			vStr("true"), vStr("[1, 2]"), vStr("{\"a\": 1}"), vStr("null"), vStr("äb"), vStr("日本語"),
+			// spellings of numbers which a parser that guesses the base or is lenient would read differently
+			vStr("010"), vStr("08"), vStr("0x1f"), vStr("1_000"), vStr("+5"), vStr("1e3"), vStr("9223372036854775808")}},
 		{"range", tRange(), []rv{vRange(1, 3, false), vRange(3, 1, false), vRange(0, 0, false), vRange(1, 3, true), vRange(-2, 2, false)}},
 		{"[int]", tList(tInt()), []rv{vList(), vList(vInt(7)), vList(vInt(3), vInt(1), vInt(2))}},
 		{"[float]", tList(tFloat()), []rv{vList(), vList(vFloat(1.5)), vList(vFloat(2.5), vFloat(0.5), vFloat(1))}},
